@@ -172,6 +172,17 @@ def native_holds(spec, obs, tree, scenario):
             if m is None:
                 return False
             return m.get(spec["field"]) == spec["value"]
+    if k == "concat_eq":
+        total = b""
+        for i in spec["steps"]:
+            o = obs[i] if i < len(obs) else None
+            if not o or o.get("outcome") != "ok":
+                return None
+            b = o["value"].get("bytes")
+            if b is None or "hex" not in b:
+                return None
+            total += bytes.fromhex(b["hex"])
+        return len(total) == spec["len"] and hashlib.sha256(total).hexdigest() == spec["sha256"]
     if k == "sri_eq_steps":
         a, b = obs[spec["a"]], obs[spec["b"]]
         try:
